@@ -32,9 +32,11 @@ int main(int argc, char** argv) {
   size_t index = Z("index"), count = Z("count"), pos = Z("pos"), pos2 = Z("pos2"), count2 = Z("count2"), index_str = Z("index_str"), pos1 = Z("pos1"), count1 = Z("count1"), idx = Z("idx"), i1 = Z("i1"), i2 = Z("i2");
   char ch = (char)Z("ch"); std::string sv = H("str");
   // heap copy of exactly the right size so ASan sees over-reads of the source
+  if (A.count("strlen") && Z("strlen") > sv.size()) sv.append(Z("strlen") - sv.size(), 'x');   // source longer than the materialised bytes
   char* cstr = (char*)malloc(sv.size() + 1); memcpy(cstr, sv.data(), sv.size()); cstr[sv.size()] = 0;
   char* buf = (char*)malloc(sv.size() ? sv.size() : 1); memcpy(buf, sv.data(), sv.size());
-  std::string S = sv; long r = 0, er = 0; bool have_r = false;
+  std::string S = sv;
+  long r = 0, er = 0; bool have_r = false;
 #define MUT(id, call, oracle) else if (m == id) { o->call; if (content) { std::string t = old; oracle; exp = cut(t); } }
 #define OBS(id, call, oracle) else if (m == id) { r = (long)(o->call); have_r = true; if (content) { std::string t = old; er = (long)(oracle); } }
   if (0) {}
@@ -166,6 +168,9 @@ int main(int argc, char** argv) {
     else for (auto it = co->rbegin(); it != co->rend() && got.size() <= CV_L; ++it) got += *it;
     std::string e = rev ? std::string(old.rbegin(), old.rend()) : old; if (got != e) return bad(m.c_str(), e, got); }
   else if (m == "sprintf") { size_t w = Z("would"); if (w > (1u << 20)) w = (1u << 20); std::string big(w, 'x'); o->sprintf("%s", big.c_str()); }   // output of `would` characters
+  else if (m == "at") { bool thrown = false; char c = 0; try { c = o->at(idx); } catch (const std::out_of_range&) { thrown = true; } size_t n = old.size();
+    if (idx > CV_L && !thrown) { printf("REPRODUCED: at(%zu) on capacity %d does not throw: the reference is outside the character buffer\n", idx, CV_L); return 1; }
+    if (content && ((idx < n && (thrown || c != old[idx])) || (idx > n && !thrown))) { printf("REPRODUCED: at(%zu) with length %zu: %s\n", idx, n, thrown ? "throws" : "returns"); return 1; } }
   else if (m == "copy") { char* d = (char*)malloc(count ? count : 1); memset(d, 0x55, count ? count : 1); r = o->copy(d, count, pos); have_r = true; if (content) { std::string t = old; er = t.copy(d, count, pos); } free(d); }
   else if (m == "substr") { std::string g = o->substr(pos, count); if (content) { std::string e = old.substr(pos, count); if (g != e) return bad("substr", e, g); } }
   else { printf("NOT-REPRODUCED: no replay for method %s\n", m.c_str()); return 0; }
